@@ -57,7 +57,7 @@ PLACES = ("before_config", "after_config", "after_simulator", "during_execute", 
 
 def plan(tier):
     if tier == "thorough":
-        return {"families": 16000, "budget_s": 2700, "grace_s": 600}
+        return {"families": 28000, "budget_s": 2700, "grace_s": 600}
     return {"families": 900, "budget_s": 200, "grace_s": 300}
 
 
